@@ -258,6 +258,13 @@ Fixpoint first_handle_of (i : N) (except : N) (l : list (N * N)) : option N :=
       end
   end.
 
+(* array-to-pointer decay of a function argument: an array type's only child is its pointer type *)
+Definition decay (h : list tobj) (i : N) : N :=
+  match find_obj i h with
+  | Some o => if N.eqb (fst (t_shape o)) 3 then hd i (t_kids o) else i
+  | None => i
+  end.
+
 Inductive hout := HSame (h : N) | HFresh | HOk | HBad.
 
 Definition hstep (s : state) (o : hop) : state * hout :=
@@ -265,7 +272,17 @@ Definition hstep (s : state) (o : hop) : state * hout :=
   | HNew h sh khs =>
       match opt_map_handles s khs with
       | None => (s, HBad)
-      | Some kids =>
+      | Some kids0 =>
+          (* new_function_type (:6101 ff.) first converts array arguments into pointers
+             (o = o->ct_stuff, the array's pointer type) and stores THOSE in fct->ct_stuff; the key is
+             built from fct->ct_stuff, i.e. from the decayed argument objects the function type itself
+             references and keeps alive.  [New] is always given the children the new type references. *)
+          let kids := if N.eqb (fst sh) 4
+                      then match kids0 with
+                           | res :: args => res :: map (decay (heap s)) args
+                           | [] => []
+                           end
+                      else kids0 in
           let a := lowest_free (heap s) 1 (S (length (heap s))) in
           match step s (New h sh kids a) with
           | (s1, ORet i) =>
